@@ -370,6 +370,83 @@ fn distribution_checks(ctx: &Ctx, stats: &mut Stats) -> Vec<Failure> {
             }
         }
     }
+    // several chance infosets in one game, the later ones with the same weights in another order:
+    // every infoset has to draw from its own declared weights
+    let pairs = if ctx.tier == crate::runner::Tier::Quick { 8 } else { 60 };
+    for k in 0..pairs {
+        let h = mix2(ctx.seed, 9_000 + k);
+        let len = 2 + (h % 4) as usize;
+        let first: Vec<f64> = if k == 0 { vec![9.0, 1.0] } else { (0..len).map(|i| 1.0 + ((h >> (8 + 4 * i)) % 9) as f64).collect() };
+        let mut second = first.clone();
+        second.rotate_left(1 + (h >> 40) as usize % (first.len() - 1).max(1));
+        if k % 3 == 2 {
+            second.reverse();
+        }
+        let inner = |tag: &str| T::Chance(Some(tag.to_string()), second.iter().enumerate().map(|(i, x)| (*x, T::Term(i as f64))).collect());
+        let tree = T::Chance(Some("first".into()), first.iter().map(|x| (*x, inner("second"))).collect());
+        let game = glue::build(&tree).unwrap();
+        for method in [Method::Sampled, Method::External] {
+            let rec = Recorder::new(Mode::Seeded(mix2(ctx.seed, 9_500 + k)));
+            let _ = glue::solve_hooked(&game, &rec, method, n_iter / 2, 0.0, 1, None);
+            let draws = rec.draws();
+            for slot in [0usize, 1usize] {
+                // which infoset a slot is follows the library's numbering: take the declared
+                // (normalised) weights the hook reports for that slot
+                let w: Vec<f64> = match draws.iter().find(|d| d.kind == Kind::Chance && d.slot == slot) {
+                    Some(d) => d.weights.clone(),
+                    None => continue,
+                };
+                let w = &w;
+                let tot: f64 = w.iter().sum();
+                let mut counts = vec![0u64; w.len()];
+                let mut n = 0.0;
+                for d in draws.iter().filter(|d| d.kind == Kind::Chance && d.slot == slot) {
+                    counts[d.used] += 1;
+                    n += 1.0;
+                }
+                if n == 0.0 {
+                    continue;
+                }
+                let chi2: f64 = counts.iter().zip(w.iter()).map(|(o, x)| (*o as f64 - n * x / tot).powi(2) / (n * x / tot)).sum();
+                let crit = CHI2_CRIT_1E10[w.len() - 2];
+                summary.push(json!({"two_chance_infosets": [first, second], "infoset": slot, "method": method_name(method), "counts": counts, "chi2": chi2, "critical_p1e-10": crit}));
+                if chi2 > crit {
+                    failures.push(Failure {
+                        sig: "C10/chance-distribution".into(),
+                        msg: format!(
+                            "game with two chance infosets (weights {:?} and {:?}): infoset {} drew {:?} over {} draws, chi-square {} > {} ({})",
+                            first, second, slot, counts, n, chi2, crit, method_name(method)
+                        ),
+                        bytes: vec![],
+                        extra: json!({"weights": w}),
+                    });
+                }
+            }
+        }
+    }
+    // one chance infoset with very many outcomes, met twice on a path: both nodes follow the one
+    // draw (counts around the limits of 8- and 16-bit indices)
+    for width in [255usize, 256, 257, 65_535, 65_536, 65_540] {
+        let hot = width - 3;
+        let outs = |leaf: &dyn Fn(usize) -> T| -> Vec<(f64, T)> { (0..width).map(|i| (if i == hot { 1e6 } else { 1.0 }, leaf(i))).collect() };
+        let inner = T::Chance(Some("deal".into()), outs(&|i| T::Term(if i == hot { 1.0 } else { -1.0 })));
+        let decide = T::Player(0, "p".into(), vec![("play".into(), inner), ("skip".into(), T::Term(0.0))]);
+        let tree = T::Chance(Some("deal".into()), outs(&|i| if i == hot { decide.clone() } else { T::Term(0.0) }));
+        let info = crate::tree::Info::of(&tree);
+        let case = LogCase {
+            built: Built { tree, family: "wide-shared-chance", info },
+            method: if width % 2 == 0 { Method::Sampled } else { Method::External },
+            params: crate::refcfr::Params::VANILLA,
+            params_name: "vanilla",
+            iters: 6,
+            threads: if width % 3 == 0 { 2 } else { 1 },
+            seed: mix2(ctx.seed, width as u64),
+        };
+        match log_case(&case) {
+            Verdict::Fail { sig, msg } => failures.push(Failure { sig, msg: format!("chance infoset with {} outcomes met twice on a path: {}", width, msg), bytes: vec![], extra: json!({"width": width}) }),
+            _ => summary.push(json!({"wide_shared_chance_infoset": width, "outcome": "draw log conforms"})),
+        }
+    }
     // player draws of external sampling: martingale statistic on a 3x3 matrix game
     for gi in 0..3u64 {
         let mut st = Stream::new(&[]);
@@ -421,7 +498,7 @@ pub fn prop() -> Prop {
         id: "C10",
         check,
         describe,
-        rule: "three parts. (a) categorical sampler: generated weight vectors (length 1..8, one in four 9..40; zeros; sums off one by 1e-15) x variates (random, or +-{0,3e-16,1e-9,1e-6} around a cumulative boundary) fed through a mock generator into the production sampler; the index must be the one whose cumulative interval contains the variate (either neighbour within 1e-12). (b) draw-log conformance: generated games x {Sampled, External, Full} x parameters x T in 1..12 x {1, 2..8 threads} with the production samplers running on per-site seeded generators; the reference model replays the recorded draws and must expect exactly the recorded set of (kind, infoset, pass) with the recorded weights (chance: declared normalised weights within 1e-12; player: the non-updating player's current strategy within 1e-6) and reach the same strategies. (c) fixed-seed distribution tests: chi-square over >= 20000 chance draws on eight fixed and 24 (thorough 200) seed-generated small-integer weight vectors (several with an entry exactly 1/n), martingale statistic over external player draws, alarm beyond p < 1e-10. Non-trivial = (a) vectors with >= 3 entries, (b) a chance infoset met at two or more nodes in one pass; distinct by case content.",
+        rule: "three parts. (a) categorical sampler: generated weight vectors (length 1..8, one in four 9..40; zeros; sums off one by 1e-15) x variates (random, or +-{0,3e-16,1e-9,1e-6} around a cumulative boundary) fed through a mock generator into the production sampler; the index must be the one whose cumulative interval contains the variate (either neighbour within 1e-12). (b) draw-log conformance: generated games x {Sampled, External, Full} x parameters x T in 1..12 x {1, 2..8 threads} with the production samplers running on per-site seeded generators; the reference model replays the recorded draws and must expect exactly the recorded set of (kind, infoset, pass) with the recorded weights (chance: declared normalised weights within 1e-12; player: the non-updating player's current strategy within 1e-6) and reach the same strategies. (c) fixed-seed distribution tests: chi-square over >= 20000 chance draws on eight fixed and 24 (thorough 200) seed-generated small-integer weight vectors (several with an entry exactly 1/n), martingale statistic over external player draws, the same test per infoset on games with two chance infosets whose weights are rotations or reversals of each other, and draw-log conformance on one chance infoset with 255..65540 outcomes met twice on a path; alarm beyond p < 1e-10. Non-trivial = (a) vectors with >= 3 entries, (b) a chance infoset met at two or more nodes in one pass; distinct by case content.",
         max_len: 900,
         cases_quick: 50_000,
         cases_thorough: 800_000,
